@@ -59,6 +59,7 @@ fn check(c: &Case) -> CaseResult {
     let s = Stream::new(b.bytes.clone(), 0, if c.cap > 0 { Sched::fixed_cap(c.cap) } else { Sched::none() }, false);
     let allowed = merge(vec![(0, 127), (h.meta_off, h.meta_off + h.meta_len), (h.root_off, h.root_off + h.root_len), (h.leaf_off, h.leaf_off + h.leaf_len)]);
     let data = (h.data_off, h.data_off + h.data_len);
+    let mut retried = false;
     macro_rules! body {
         ($pm:expr, $get:expr) => {{
             let mut pm = $pm.map_err(|e| Fail::new(format!("C20/open-err/{kind}"), format!("a spec-valid archive is rejected: {e}")))?;
@@ -92,6 +93,34 @@ fn check(c: &Case) -> CaseResult {
                 }
                 looked += 1;
             }
+            // a lookup that is interrupted by a transient fault part-way and then retried must still read exactly
+            // its own range (nothing may be remembered from the aborted attempt)
+            if let Some(sel) = c.lookups.first() {
+                if !ids.is_empty() {
+                    let id = ids[crate::model::pick(sel.wrapping_mul(31), ids.len())];
+                    let (off, len) = b.expected[&id];
+                    let saved = s.with(|k| {
+                        let old = k.sched.clone();
+                        k.sched.caps = vec![5];
+                        k.sched.cycle = true;
+                        k.sched.fail_once_at = Some(k.ops + 2 + u64::from(*sel % 3));
+                        old
+                    });
+                    let first: std::io::Result<Option<Vec<u8>>> = $get(&mut pm, id);
+                    s.with(|k| k.sched = saved);
+                    if first.is_err() {
+                        s.clear_delivered();
+                        let t: std::io::Result<Option<Vec<u8>>> = $get(&mut pm, id);
+                        let t = t.map_err(|e| Fail::new(format!("C20/get-err/{kind}"), format!("retry after a transient fault: {e}")))?;
+                        ensure!(t.as_deref() == Some(&b.bytes[off as usize..(off + u64::from(len)) as usize]), format!("C20/retried-lookup-wrong-bytes/{kind}"), "tile {id}: retried lookup after a transient fault returns other bytes");
+                        let got = s.delivered();
+                        if got != vec![(off, off + u64::from(len))] {
+                            fail!(format!("C20/lookup-reads-other-bytes/{kind}"), "retried lookup of tile {id} ([{off},{})) after a transient fault read {:?}", off + u64::from(len), got);
+                        }
+                        retried = true;
+                    }
+                }
+            }
             looked
         }};
     }
@@ -120,6 +149,7 @@ fn check(c: &Case) -> CaseResult {
         .label(!c.asyncr, "sync")
         .label(c.range.is_some(), "partial-open")
         .label(looked > 0, "lookups")
+        .label(retried, "retry-after-transient-fault")
         .label(c.cap > 0, "short-reads")
         .label(true, super::c01::codec_label(c.l.internal)))
 }
@@ -138,7 +168,7 @@ pub fn run(ctx: &Ctx) {
          directory section; distinct by digest.",
     );
     run_proptest(ctx, "recorded-reads", PtCfg::new(ctx.lanes, ctx.tier.pick(600, 8000)), || strategy(ctx.tier.pick(200, 1500)), check);
-    for c in ["tile-data-not-last", "gap-after-directory-section", "with-leaves", "async", "sync", "partial-open", "lookups", "short-reads", "internal-brotli", "internal-zstd", "internal-gzip", "internal-none"] {
+    for c in ["tile-data-not-last", "gap-after-directory-section", "with-leaves", "async", "sync", "partial-open", "lookups", "short-reads", "retry-after-transient-fault", "internal-brotli", "internal-zstd", "internal-gzip", "internal-none"] {
         ctx.rec.floor(c, 20);
     }
 }
